@@ -994,6 +994,11 @@ class Oracles:
                         exc = tm.atask.exception()
                         if exc is not None and not self.is_injected(pm, exc):
                             w.fail({"C02", "C12", "C03"}, "final/task-failed-with-foreign-exception", f"{name}: {type(exc).__name__}: {exc}")
+                if tm.faults and tm.atask is not None and tm.atask.done():
+                    # an exception raised by the task's coroutine or by one of its callbacks is what the task ends with
+                    got = None if tm.atask.cancelled() else tm.atask.exception()
+                    if not any(got is f for f in tm.faults):
+                        w.fail({"C12"}, "task/injected-exception-lost", f"{name}: raised {tm.faults!r}, task ended with {got!r}")
                 self.check_task_lifecycle(pm, tm)
             if not pm.closed and pool.num_running != 0:
                 w.fail({"C02"}, "final/num_running-nonzero", f"{pm.name}: {pool.num_running}")
